@@ -113,6 +113,17 @@ def main(payload):
         exp = {k: [ref[i][k][j] for j in sel] for k in ref[i]}
         if not same(exp, got):
             out['diffs'].append({'spec': sp, 'selection': sel, 'why': 'value depends on the other points of the request'})
+        # the same points in descending order and with the outermost point first (an early exit or a flag carried through the
+        # per-point loop shows only when a far point precedes a near one), and every point in a request of its own
+        for sel in (list(range(n - 1, -1, -1)), [n - 1] + list(range(n - 1)), [n - 1, 0, n - 1]):
+            try:
+                got = run(dict(sp, pts=[sp['pts'][j] for j in sel]))
+            except Exception as ex:
+                out['diffs'].append({'spec': sp, 'selection': sel, 'why': 'raised %s for a re-ordered request' % type(ex).__name__}); continue
+            exp = {k: [ref[i][k][j] for j in sel] for k in ref[i]}
+            if not same(exp, got):
+                out['diffs'].append({'spec': sp, 'selection': sel, 'why': 'value depends on the order of the points in the request'})
+                break
     out['n'] = len(specs)
     return out
 '''
@@ -137,8 +148,8 @@ def specs(rng, tier):
             dict(module=E + 'ehep.ehep', **{'class': 'EscapeOfHEProducts'}, params={}, pts=P(0.0, 1.5), t=1.0, elementwise=True),
             dict(module=E + 'mader.timmes', **{'class': 'Mader'}, params={}, pts=P(0.0, 5.0), t=6.25e-6),
             dict(module=E + 'blake.blake', **{'class': 'Blake'}, params={}, pts=P(0.1, 1.0), t=1.6e-4, elementwise=True),
-            dict(module=E + 'rmtv.rmtv', **{'class': 'Rmtv'}, params={}, pts=P(0.05, 1.2), t=0.0511),
-            dict(module=E + 'suolson.suolson', **{'class': 'SuOlson'}, params={}, pts=P(0.1, 5.0, 3), t=1.0e-9),
+            dict(module=E + 'rmtv.rmtv', **{'class': 'Rmtv'}, params={}, pts=P(0.05, 1.2), t=0.0511, elementwise=True),
+            dict(module=E + 'suolson.suolson', **{'class': 'SuOlson'}, params={}, pts=P(0.1, 5.0, 3), t=1.0e-9, elementwise=True),
             dict(module=E + 'heat.rod1d', **{'class': 'Rod1D'}, params={}, pts=P(0.05, 0.95), t=0.05, elementwise=True),
             dict(module=E + 'kenamond.kenamond2', **{'class': 'Kenamond2'}, params={}, pts=[[round(rng.uniform(-8, 8), 3), round(rng.uniform(-8, 8), 3)] for _ in range(5)], t=0.0, elementwise=True),
             dict(module=E + 'sdrz.sdrz', **{'class': 'SteadyDetonationReactionZone'}, params={}, pts=P(0.0, 0.01), t=1.0e-6),
@@ -158,6 +169,12 @@ def specs(rng, tier):
         if 'geometry' in PP:
             PP['geometry'] = {1: 2, 2: 3, 3: 2}[PP['geometry']]
             twins.append(dict(sp, params=PP))
+    # Su-Olson: a second parameter set whose dimensionless coordinates (x, tau) coincide bit for bit with the first one's while epsilon = 4a/alpha
+    # differs (alpha and t both scaled by 8): a cache of the dimensionless solution keyed on (x, tau) alone then collides
+    for sp in out:
+        if sp['class'] == 'SuOlson' and not sp['params']:
+            twins.append(dict(sp, params={'alpha': 8 * 3.02636565993931701e-14}, t=8 * sp['t']))
+            break
     gg = 3.0          # eexp's root search takes minutes for gamma = 5/3; 0.3 s for 3.0
     for geo in (2, 3):
         twins.append(dict(module=E + 'guderley', **{'class': 'Guderley'}, params={'geometry': geo, 'gamma': gg, 'rho0': 1.0}, pts=P(0.2, 2.5, 4), t=-0.7))
